@@ -48,7 +48,7 @@ partial def rangeDupCheck (c : Ctx V) (grid : List Int) : Expr V → Bool
     else
       let present := (matchingSeries c s).filter fun sr =>
         grid.any fun t =>
-          let ref := s.refTime t
+          let ref := s.refTime c.start t
           (rangeKernel fn (windowPoints (ref - range) ref sr.samples) (ref - range) ref
             (rangeSeconds range : V)).isSome
       let dropped := present.map (·.labels.dropName)
@@ -93,5 +93,43 @@ def runQuery (c : Ctx V) (w : Window) (e : Expr V) : QResult V :=
         | .vec v => (s.1, v)
         | .scal v => (s.1, [([], v)])
       .matrix (sortSeries (toSeries vsteps))
+
+end PromqlVerif
+
+namespace PromqlVerif
+open Val
+variable {V : Type} [Val V]
+
+/-- does the selection of a topk/bottomk group depend on the order of its members? -/
+def groupOrderDependent (top : Bool) (k : Nat) (vals : List V) : Bool :=
+  if vals.length ≤ k then false
+  else if vals.any isNaN then true
+  else
+    let sorted := vals.mergeSort (fun a b => if top then !lt a b else !lt b a)
+    match sorted[k - 1]?, sorted[k]? with
+    | some a, some b => eq a b
+    | _, _ => false
+
+/-- some topk/bottomk of the query has, at some step, a tie at the selection boundary: the
+result then legitimately depends on the order in which samples reach the aggregation -/
+partial def hasTie (c : Ctx V) (grid : List Int) : Expr V → Bool
+  | .aggP op without grouping p e =>
+    hasTie c grid p || hasTie c grid e ||
+      ((op == "topk" || op == "bottomk") && grid.any fun t =>
+        match eval c t p, eval c t e with
+        | .ok (.scal pv), .ok (.vec v) =>
+          if !inInt64 pv || toInt pv < 1 then false
+          else
+            (groupBy (fun (x : Labels × V) => groupKey without grouping x.1) v).any fun g =>
+              groupOrderDependent (op == "topk") (toInt pv).toNat (g.2.map (·.2))
+        | _, _ => false)
+  | .agg _ _ _ e => hasTie c grid e
+  | .call _ args => args.any (hasTie c grid)
+  | .bin _ _ _ l r => hasTie c grid l || hasTie c grid r
+  | .neg e => hasTie c grid e
+  | .pos e => hasTie c grid e
+  | .paren e => hasTie c grid e
+  | .stepInv e => hasTie c [c.start] e
+  | _ => false
 
 end PromqlVerif
